@@ -202,10 +202,10 @@ def write_dbs(case, base):
     os.makedirs(os.path.join(base, "dbs"), exist_ok=True)
     lines = []
     for p, entries in by.items():
-        dbp = os.path.join(base, "dbs", p + ".json")
+        dbp = os.path.join(base, "dbs", forest.dbname(p))
         with open(dbp, "w") as f:
             json.dump(entries, f)
-        lines.append(f"[platform.{p}]\ncommands = \"{dbp}\"\n")
+        lines.append(f"[platform.\"{p}\"]\ncommands = \"{dbp}\"\n")
     with open(os.path.join(root, "analysis.toml"), "w") as f:
         f.write("\n".join(lines))
     return "analysis.toml"
